@@ -269,6 +269,17 @@ func main() {
 	r := common.Start("C13", "model_checking")
 	data := bqlm.KindGraph()
 	ts := tables()
+	for _, t := range ts {
+		q := &bqlm.Query{From: []string{"?g"}, Where: t.where, Proj: t.proj, GroupBy: t.group}
+		res := bqlm.Exec(bqlm.NewStore(map[string][]*triple.Triple{"?g": data}), q.Render(), 0, 0, q.OutCols())
+		if res.Stage != "" {
+			common.Machinery("table %s: the query without HAVING fails: %s %s", t.name, res.Stage, res.Err)
+		}
+		if res.Printed == nil {
+			res.Printed = []string{}
+		}
+		baselinePrinted[t.name] = res.Printed
+	}
 	depth := r.Pick(2, 3)
 	trees := func(t tbl, d int) []*bqlm.Expr { return bqlm.Trees(t.atoms, d) }
 	r.Replayer("having", func(raw json.RawMessage) (bool, string) {
